@@ -88,10 +88,10 @@ theorem select_nodup (g : BuildGraph) (s : Selector) (h : Host) (order sel : Lis
 /-- Selection always terminates with a selection or a platform error (the fuel of the model is never
     exhausted). -/
 theorem select_total (g : BuildGraph) (s : Selector) (h : Host) (order : List Nat) :
-    (∃ sel c, selectForBuild g s h order = .ok sel c) ∨ (∃ x, selectForBuild g s h order = .platformError x) := by
+    (∃ sel c, selectForBuild g s h order = .ok sel c) ∨ (∃ x c, selectForBuild g s h order = .platformError x c) := by
   cases hr : selectForBuild g s h order with
   | ok sel c => exact Or.inl ⟨sel, c, rfl⟩
-  | platformError x => exact Or.inr ⟨x, rfl⟩
+  | platformError x c => exact Or.inr ⟨x, c, rfl⟩
   | fuel => exact absurd hr (selectLoop_ne_fuel _ _ _ _ _)
 
 theorem platAt_false_iff {g : BuildGraph} {h : Host} {x : Nat} (hx : x < g.nodes.length) :
@@ -105,7 +105,7 @@ theorem platAt_false_iff {g : BuildGraph} {h : Host} {x : Nat} (hx : x < g.nodes
     incompatible is skipped, not an error (unless something else that matches depends on it). -/
 theorem platform_error_iff (g : BuildGraph) (s : Selector) (h : Host) (order : List Nat)
     (hwf : WF g) (hc : Covers g order) :
-    (∃ x, selectForBuild g s h order = .platformError x) ↔
+    (∃ x c, selectForBuild g s h order = .platformError x c) ↔
       ∃ m x, Matched g s h m ∧ DepOf g x m ∧ Incompatible g h x := by
   have hlt : ∀ m x, Matched g s h m → Reach g.edges x m → x < g.nodes.length := by
     intro m x hm hr
@@ -114,8 +114,8 @@ theorem platform_error_iff (g : BuildGraph) (s : Selector) (h : Host) (order : L
     | refl => exact hm'
     | step e _ => exact (hwf _ e).1
   constructor
-  · rintro ⟨x, hx⟩
-    obtain ⟨h1, r, hr, hreach⟩ := selectLoop_err_inv _ _ _ _ _ _ hx
+  · rintro ⟨x, cx, hx⟩
+    obtain ⟨h1, ⟨r, hr, hreach⟩, _⟩ := selectLoop_err_inv _ _ _ _ _ _ _ hx
     have hm := (mem_roots hc r).mp hr
     have hreach' := reach_flip.mp hreach
     exact ⟨r, x, hm, hreach', (platAt_false_iff (hlt r x hm hreach')).mp h1⟩
@@ -133,7 +133,7 @@ theorem platform_error_iff (g : BuildGraph) (s : Selector) (h : Host) (order : L
     every node agree on success / failure and select the same set. -/
 theorem select_order_independent (g : BuildGraph) (s : Selector) (h : Host) (o1 o2 : List Nat)
     (hwf : WF g) (h1 : Covers g o1) (h2 : Covers g o2) :
-    ((∃ x, selectForBuild g s h o1 = .platformError x) ↔ (∃ x, selectForBuild g s h o2 = .platformError x)) ∧
+    ((∃ x c, selectForBuild g s h o1 = .platformError x c) ↔ (∃ x c, selectForBuild g s h o2 = .platformError x c)) ∧
     (∀ sel1 c1 sel2 c2, selectForBuild g s h o1 = .ok sel1 c1 → selectForBuild g s h o2 = .ok sel2 c2 →
       ∀ x, x ∈ sel1 ↔ x ∈ sel2) := by
   refine ⟨?_, ?_⟩
@@ -161,7 +161,7 @@ def anyHost : Host := ⟨[108], true⟩
 end Ex
 
 /-- an incompatible dependency reached only through an alias is an error … -/
-example : selectForBuild Ex.g Ex.sel Ex.linux [0, 1, 2] = .platformError 0 := by decide
+example : selectForBuild Ex.g Ex.sel Ex.linux [0, 1, 2] = .platformError 0 3 := by decide
 /-- … and with `--all-platforms` the alias and its target are selected (in any order). -/
 example : selectForBuild Ex.g Ex.sel Ex.anyHost [2, 0, 1] = .ok [0, 1, 2] 3 := by decide
 /-! the alias finding: `lib` (tag `slow`) ← `al` (alias), `app`; `--exclude-tag=slow //...` -/
